@@ -226,6 +226,12 @@ class DataGen:
     def split(self, sh: Shadow, p):
         """Choose (base, relative-or-absolute path) addressing absolute path p."""
         r = self.rnd
+        if p != "/" and r.random() < 0.08:
+            # an absolute path used through the handle of an unrelated group, preferably the
+            # one created last (it lives in the newest container)
+            gl = [q for q, k in sh.nodes.items() if k == "g" and q != "/"]
+            if gl:
+                return (gl[-1] if r.random() < 0.6 else r.choice(gl)), p
         if r.random() < 0.55 or p == "/":
             return "/", p if r.random() < 0.5 else p.lstrip("/") or "/"
         # relative from an ancestor group
@@ -304,7 +310,10 @@ class DataGen:
             if k == "move" and (dst == src or dst.startswith(src.rstrip("/") + "/")):
                 dst = "/" + self.key() + "_mv"
             base = "/"
-            if r.random() < 0.3:
+            gl = [q for q, kk in sh.nodes.items() if kk == "g" and q != "/"]
+            if gl and r.random() < 0.08:
+                base = gl[-1] if r.random() < 0.6 else r.choice(gl)  # absolute paths through an unrelated group
+            elif r.random() < 0.3:
                 b2 = r.choice(sh.groups())
                 pre = b2.rstrip("/") + "/"
                 if src.startswith(pre) and dst.startswith(pre):
